@@ -303,7 +303,9 @@ Section RUN.
 
   (* thread_create (1040-1084) *)
   Definition do_create (s : state) (v : nat) (k : tid) (jn ws : bool) : state :=
-    let th := mkT READY v KUser 0 0 false None [] jn ws LFree 0 0 0 false true 0 0 0 0 0 in
+    (* the new `thread` object; its join queue (thread::cond) is the empty queue that the slot of a
+       thread which does not exist yet always has (nobody can wait for it) *)
+    let th := mkT READY v KUser 0 0 false None (th_joiners (getth s k)) jn ws LFree 0 0 0 false true 0 0 0 0 0 in
     let s1 := set_s_th s (updp (s_th s) k th) in
     modvc s1 v (fun x => set_v_nthreads (set_v_runq x (v_runq x ++ [k])) (v_nthreads x + 1)).
 
